@@ -19,7 +19,7 @@ Definition parses_as (t : bytes) (j : jv) : Prop :=
   forall rest f, delim rest -> p_value (S f) (t ++ rest) = Some (j, rest).
 Definition starts_ok (t : bytes) : Prop :=
   match t with b :: _ => is_ws b = false /\ Byte.eqb b RBRACK = false | [] => False end.
-Definition atom_pre (a : atom) : Prop := parses_as (atxt a) (asem a) /\ starts_ok (atxt a).
+Definition atom_pre (a : atom) : Prop := parses_as (atxt a) (asem a) /\ starts_ok (atxt a) /\ no_ctl (atxt a) = true.
 
 Fixpoint tpre (v : jt) : Prop :=
   match v with
@@ -117,6 +117,9 @@ Lemma pe_step f s acc : p_elems (S f) s acc =
   end.
 Proof. reflexivity. Qed.
 
+Lemma skip_nonws b X : is_ws b = false -> skip_ws (b :: X) = b :: X.
+Proof. intros H. cbn [skip_ws]. now rewrite H. Qed.
+
 (* ---- atoms that need no oracle ---- *)
 Lemma quoted_parses s : parses_as (quoted s) (JStr (sanitize s)).
 Proof.
@@ -194,16 +197,13 @@ Proof.
       rewrite <- ?app_assoc; cbn [app]; rewrite <- ?app_assoc; reflexivity. }
   rewrite Hpop, pm_quote.
   rewrite string_roundtrip by (rewrite !app_length; cbn; lia).
-  cbn [skip_ws is_ws]. replace (Byte.eqb COLON SPACE || Byte.eqb COLON TAB || Byte.eqb COLON NL || Byte.eqb COLON CR) with false by reflexivity.
-  replace (Byte.eqb COLON COLON) with true by reflexivity. rewrite pv_sp.
+  rewrite (skip_nonws COLON _ eq_refl). change (Byte.eqb COLON COLON) with true. cbv iota. rewrite pv_sp.
   destruct r as [|m r'].
   - rewrite (Hparse (RBRACE :: rest) f); [|right; left; reflexivity|lia].
-    cbn [skip_ws is_ws]. replace (Byte.eqb RBRACE SPACE || Byte.eqb RBRACE TAB || Byte.eqb RBRACE NL || Byte.eqb RBRACE CR) with false by reflexivity.
-    replace (Byte.eqb RBRACE COMMA) with false by reflexivity. replace (Byte.eqb RBRACE RBRACE) with true by reflexivity.
-    cbn [rev jv_mem]. now rewrite <- app_assoc.
+    rewrite (skip_nonws RBRACE _ eq_refl). change (Byte.eqb RBRACE COMMA) with false. change (Byte.eqb RBRACE RBRACE) with true. cbv iota.
+    cbn [rev jv_mem]. reflexivity.
   - rewrite (Hparse (COMMA :: (if sp then [SPACE] else []) ++ popen (m :: r') ++ RBRACE :: rest) f); [|left; reflexivity|lia].
-    cbn [skip_ws is_ws]. replace (Byte.eqb COMMA SPACE || Byte.eqb COMMA TAB || Byte.eqb COMMA NL || Byte.eqb COMMA CR) with false by reflexivity.
-    replace (Byte.eqb COMMA COMMA) with true by reflexivity. rewrite pm_sp.
+    rewrite (skip_nonws COMMA _ eq_refl). change (Byte.eqb COMMA COMMA) with true. cbv iota. rewrite pm_sp.
     rewrite IH; [|exact Hpr|discriminate|lia]. cbn [rev jv_mem]. now rewrite <- app_assoc.
 Qed.
 
@@ -220,25 +220,23 @@ Proof.
   rewrite Hpop, pe_step.
   destruct r as [|m r'].
   - rewrite (Hparse (RBRACK :: rest) f); [|right; right; reflexivity|lia].
-    cbn [skip_ws is_ws]. replace (Byte.eqb RBRACK SPACE || Byte.eqb RBRACK TAB || Byte.eqb RBRACK NL || Byte.eqb RBRACK CR) with false by reflexivity.
-    replace (Byte.eqb RBRACK COMMA) with false by reflexivity. replace (Byte.eqb RBRACK RBRACK) with true by reflexivity.
-    cbn [rev jv_list]. now rewrite <- app_assoc.
+    rewrite (skip_nonws RBRACK _ eq_refl). change (Byte.eqb RBRACK COMMA) with false. change (Byte.eqb RBRACK RBRACK) with true. cbv iota.
+    cbn [rev jv_list]. reflexivity.
   - rewrite (Hparse (COMMA :: (if sp then [SPACE] else []) ++ pelems (m :: r') ++ RBRACK :: rest) f); [|left; reflexivity|lia].
-    cbn [skip_ws is_ws]. replace (Byte.eqb COMMA SPACE || Byte.eqb COMMA TAB || Byte.eqb COMMA NL || Byte.eqb COMMA CR) with false by reflexivity.
-    replace (Byte.eqb COMMA COMMA) with true by reflexivity. rewrite pe_sp.
+    rewrite (skip_nonws COMMA _ eq_refl). change (Byte.eqb COMMA COMMA) with true. cbv iota. rewrite pe_sp.
     rewrite IH; [|exact Hpr|discriminate|lia]. cbn [rev jv_list]. now rewrite <- app_assoc.
 Qed.
 
 Theorem tree_parses : forall v, Pt v.
 Proof.
   apply jt_ind'.
-  - (* atom *) intros a [Hp Hs]. split; [|exact Hs]. intros rest f Hr Hf. cbn [size] in Hf. destruct f; [lia|]. now apply Hp.
+  - (* atom *) intros a [Hp [Hs _]]. split; [|exact Hs]. intros rest f Hr Hf. cbn [size] in Hf. destruct f; [lia|]. now apply Hp.
   - (* array *) intros l Hl Hp. split; [|split; reflexivity].
     intros rest f Hr Hf. rewrite pv_arr. cbn [size] in Hf. fold (esize l) in Hf. destruct f as [|f]; [lia|].
     rewrite <- !app_assoc. cbn [app]. rewrite pv_lbrack. destruct l as [|v r].
     + cbn. reflexivity.
     + assert (Hfirst : exists b x, skip_ws (pelems (v :: r) ++ RBRACK :: rest) = b :: x /\ Byte.eqb b RBRACK = false).
-      { destruct Hl as [|? ? Hv _]; [congruence|]. cbn [tpre] in Hp. destruct Hp as [Hpv _]. destruct (Hv Hpv) as [_ Hst].
+      { inversion Hl as [|? ? Hv Hrr]; subst. cbn [tpre] in Hp. destruct Hp as [Hpv _]. destruct (Hv Hpv) as [_ Hst].
         unfold JsonAst.pelems. cbn [map]. destruct (map (JsonAst.pv sp) r) as [|y ys] eqn:E; cbn [join].
         - destruct (skip_starts _ (RBRACK :: rest) Hst) as (b & x & _ & H2 & H3). eauto.
         - rewrite <- !app_assoc. destruct (skip_starts _ (sepb sp ++ join (sepb sp) (y :: ys) ++ RBRACK :: rest) Hst) as (b & x & _ & H2 & H3). eauto. }
@@ -255,11 +253,66 @@ Proof.
       rewrite (members_parse ((k, v) :: r) Hl Hp ltac:(discriminate) rest [] f ltac:(lia)). reflexivity.
 Qed.
 
-(* no control character anywhere in the printed tree, given control-free atoms *)
-Fixpoint tnoctl (v : jt) : Prop :=
-  match v with
-  | TA a => no_ctl (atxt a) = true
-  | TArr l => (fix go (l : list jt) : Prop := match l with [] => True | x :: r => tnoctl x /\ go r end) l
-  | TObj l => (fix go (l : list member) : Prop := match l with [] => True | (_, x) :: r => tnoctl x /\ go r end) l
-  end.
+(* no control character anywhere in the printed tree *)
+Lemma no_ctl_app a b : no_ctl (a ++ b) = no_ctl a && no_ctl b.
+Proof. unfold no_ctl. apply forallb_app. Qed.
+Lemma no_ctl_join sep l : no_ctl sep = true -> Forall (fun x => no_ctl x = true) l -> no_ctl (join sep l) = true.
+Proof.
+  intros Hs. induction 1 as [|x r Hx _ IH]; [reflexivity|]. destruct r as [|y r']; [exact Hx|].
+  change (join sep (x :: y :: r')) with (x ++ sep ++ join sep (y :: r')). now rewrite !no_ctl_app, Hx, Hs, IH.
+Qed.
+Lemma quoted_no_ctl k : no_ctl (quoted k) = true.
+Proof. unfold quoted. rewrite !no_ctl_app. unfold escape. now rewrite escape_no_ctl. Qed.
+Lemma sepb_no_ctl : no_ctl (sepb sp) = true.
+Proof. destruct sp; reflexivity. Qed.
+Lemma colb_no_ctl : no_ctl (colb sp) = true.
+Proof. destruct sp; reflexivity. Qed.
+Theorem tree_no_ctl : forall v, tpre v -> no_ctl (pv v) = true.
+Proof.
+  apply (jt_ind' (fun v => tpre v -> no_ctl (pv v) = true)).
+  - intros a (_ & _ & H). exact H.
+  - intros l Hl Hp. rewrite pv_arr, !no_ctl_app. change (no_ctl [LBRACK]) with true. change (no_ctl [RBRACK]) with true. rewrite andb_true_r. cbn [andb].
+    unfold JsonAst.pelems. apply no_ctl_join; [apply sepb_no_ctl|]. apply Forall_map.
+    revert Hp. induction Hl as [|x r Hx _ IH]; intros Hp; constructor; cbn [tpre] in Hp; destruct Hp as [H1 H2]; auto.
+  - intros l Hl Hp. rewrite pv_obj, !no_ctl_app. change (no_ctl [LBRACE]) with true. change (no_ctl [RBRACE]) with true. rewrite andb_true_r. cbn [andb].
+    unfold JsonAst.popen. apply no_ctl_join; [apply sepb_no_ctl|]. apply Forall_map.
+    revert Hp. induction Hl as [|[k x] r Hx _ IH]; intros Hp; constructor; cbn [tpre] in Hp; destruct Hp as [H1 H2]; auto.
+    unfold pm; cbn [fst snd]. rewrite !no_ctl_app, quoted_no_ctl, colb_no_ctl. cbn [andb]. now apply Hx.
+Qed.
+
+(* the fuel [parse] uses is enough: a printed tree is at least as long as its size *)
+Lemma starts_len t : starts_ok t -> 1 <= length t.
+Proof. destruct t; [intros []|cbn; lia]. Qed.
+Lemma sepb_len : 1 <= length (sepb sp).
+Proof. destruct sp; cbn; lia. Qed.
+Theorem size_le : forall v, tpre v -> size v <= length (pv v).
+Proof.
+  apply (jt_ind' (fun v => tpre v -> size v <= length (pv v))).
+  - intros a (_ & Hs & _). cbn [size JsonAst.pv]. now apply starts_len.
+  - intros l Hl Hp. rewrite pv_arr, !app_length. cbn [size length]. fold (esize l).
+    assert (G : esize l <= length (pelems l) + 1).
+    { revert Hp. induction Hl as [|x r Hx _ IH]; intros Hp; [cbn; lia|]. cbn [tpre] in Hp. destruct Hp as [H1 H2].
+      specialize (Hx H1). specialize (IH H2). cbn [esize]. unfold JsonAst.pelems in *. cbn [map].
+      destruct r as [|y r']; [cbn [map join esize]; lia|].
+      change (join (sepb sp) (JsonAst.pv sp x :: map (JsonAst.pv sp) (y :: r'))) with (JsonAst.pv sp x ++ sepb sp ++ join (sepb sp) (map (JsonAst.pv sp) (y :: r'))).
+      rewrite !app_length. pose proof sepb_len. lia. }
+    lia.
+  - intros l Hl Hp. rewrite pv_obj, !app_length. cbn [size length]. fold (msize l).
+    assert (G : msize l <= length (popen l)).
+    { revert Hp. induction Hl as [|[k x] r Hx _ IH]; intros Hp; [cbn; lia|]. cbn [tpre] in Hp. destruct Hp as [H1 H2].
+      cbn [snd] in Hx. specialize (Hx H1). specialize (IH H2). cbn [msize]. unfold JsonAst.popen in *. cbn [map].
+      assert (Hpm : S (size x) <= length (pm sp (k, x))).
+      { unfold pm, quoted, colb; cbn [fst snd]. rewrite !app_length. cbn [length]. lia. }
+      destruct r as [|y r']; [cbn [map join msize]; lia|].
+      change (join (sepb sp) (pm sp (k, x) :: map (pm sp) (y :: r'))) with (pm sp (k, x) ++ sepb sp ++ join (sepb sp) (map (pm sp) (y :: r'))).
+      rewrite !app_length. lia. }
+    lia.
+Qed.
+
+Theorem parse_printed v : tpre v -> parse (pv v) = Some (jv_of v).
+Proof.
+  intros Hp. unfold parse. destruct (tree_parses v Hp) as [H _].
+  specialize (H [] (S (length (pv v))) I). rewrite app_nil_r in H. rewrite H; [reflexivity|].
+  pose proof (size_le v Hp). lia.
+Qed.
 End S.
